@@ -338,7 +338,7 @@ impl<'a> GeneratorState<'a> {
     fn generate_deref(&mut self, expr: &Expr, pos: usize) -> Result<ExprType, Error> {
         match expr {
             Expr::Identifier(var, sub) => {
-                let v = self.compiler_state.get_variable(var);
+                let v = self.compiler_state.find_variable(var, pos)?;
                 if v.var_type == VariableType::CharPtr {
                     let sub_output = self.generate_expr(sub, pos, false, false)?;
                     match sub_output {
@@ -386,7 +386,7 @@ impl<'a> GeneratorState<'a> {
     fn generate_addr(&mut self, expr: &Expr, pos: usize) -> Result<ExprType, Error> {
         match expr {
             Expr::Identifier(var, sub) => {
-                let v = self.compiler_state.get_variable(var);
+                let v = self.compiler_state.find_variable(var, pos)?;
                 if v.var_type == VariableType::Char {
                     let sub_output = self.generate_expr(sub, pos, false, false)?;
                     match sub_output {
@@ -425,7 +425,7 @@ impl<'a> GeneratorState<'a> {
                 }
             }
             Expr::Identifier(var, _) => {
-                let v = self.compiler_state.get_variable(var);
+                let v = self.compiler_state.find_variable(var, pos)?;
                 match v.var_type {
                     VariableType::CharPtr => {
                         if v.var_const {
@@ -508,8 +508,8 @@ impl<'a> GeneratorState<'a> {
                             if let Expr::Integer(8) = *rhs2 {
                                 if let Expr::Identifier(var, sub) = *lhs2 {
                                     if let Expr::Nothing = *sub {
-                                        let v = self.compiler_state.get_variable(var.as_str());
-                                        if v.var_type == VariableType::CharPtr && v.var_const {
+                                        let v = self.compiler_state.variables.get(var.as_str());
+                                        if v.is_some_and(|v| v.var_type == VariableType::CharPtr && v.var_const) {
                                             if self.acc_in_use {
                                                 self.sasm(PHA)?;
                                             }
@@ -557,8 +557,8 @@ impl<'a> GeneratorState<'a> {
                             if let Expr::Integer(8) = *rhs2 {
                                 if let Expr::Identifier(var, sub) = *lhs2 {
                                     if let Expr::Nothing = *sub {
-                                        let v = self.compiler_state.get_variable(var.as_str());
-                                        if v.var_type == VariableType::CharPtr && v.var_const {
+                                        let v = self.compiler_state.variables.get(var.as_str());
+                                        if v.is_some_and(|v| v.var_type == VariableType::CharPtr && v.var_const) {
                                             if self.acc_in_use {
                                                 self.sasm(PHA)?;
                                             }
@@ -714,7 +714,7 @@ impl<'a> GeneratorState<'a> {
                     }
                 }
                 variable => {
-                    let v = self.compiler_state.get_variable(variable);
+                    let v = self.compiler_state.find_variable(variable, pos)?;
                     let dummy = if let Expr::Nothing = **sub {
                         None
                     } else {
@@ -1091,7 +1091,7 @@ impl<'a> GeneratorState<'a> {
     fn generate_strobe_statement(&mut self, expr: &Expr, pos: usize) -> Result<(), Error> {
         match expr {
             Expr::Identifier(name, _) => {
-                let v = self.compiler_state.get_variable(name);
+                let v = self.compiler_state.find_variable(name, pos)?;
                 match v.var_type {
                     VariableType::CharPtr => {
                         self.protected = true;
